@@ -285,6 +285,44 @@ pub fn find_weights(rng: &mut Rng, g: &GraphSpec, profile: WeightProfile) -> Opt
     Some(ws)
 }
 
+/// Move one weight so that one randomly chosen constraint (sub-dod or overall dod) has
+/// slack exactly 2^-k (k in 20..50) while all others stay positive: a graph just inside the
+/// convergence region, with exactly representable (dyadic) weights.
+pub fn extreme_marginal(rng: &mut Rng, g: &GraphSpec) -> Option<(Vec<f64>, f64)> {
+    let go = GO::new(g);
+    let cons = constraints(&go);
+    let ne = go.ne;
+    for _ in 0..12 {
+        let ci = rng.below(cons.len().saturating_sub(1).max(1));
+        let c = &cons[ci];
+        let v: f64 = c.a.iter().zip(&g.weights).map(|(a, x)| a * x).sum::<f64>() - c.b;
+        let k = *rng.pick(&[20, 30, 36, 40, 44, 50]);
+        let t = 2f64.powi(-k);
+        if !(v > t) {
+            continue;
+        }
+        let cand: Vec<usize> = (0..ne).filter(|e| c.a[*e] != 0.0).collect();
+        if cand.is_empty() {
+            continue;
+        }
+        let e = cand[rng.below(cand.len())];
+        let mut w = g.weights.clone();
+        w[e] -= c.a[e] * (v - t);
+        if !(w[e] > 0.0) {
+            continue;
+        }
+        let g2 = GraphSpec { weights: w.clone(), ..g.clone() };
+        let go2 = GO::new(&g2);
+        let om = go2.omega_table();
+        let full = go2.full() as usize;
+        if (1..full).all(|m| om[m].is_positive()) && go2.dod().is_positive() {
+            let min = (1..full).map(|m| qf(&om[m])).fold(f64::INFINITY, f64::min);
+            return Some((w, min));
+        }
+    }
+    None
+}
+
 #[derive(Clone, Debug)]
 pub struct GraphOpts {
     pub max_edges: usize,
@@ -1063,7 +1101,12 @@ pub fn any_graph(rng: &mut Rng, emax: usize) -> (GraphSpec, String) {
             if let Some(w) = find_weights(rng, &g, profile) {
                 g.weights = w;
                 desc.push_str(&format!("+finder:{:?}", profile));
-                if rng.chance(0.35) {
+                if rng.chance(0.2) {
+                    if let Some((w2, min)) = extreme_marginal(rng, &g) {
+                        g.weights = w2;
+                        desc.push_str(&format!("+extreme_marginal(min_sub_dod={:e})", min));
+                    }
+                } else if rng.chance(0.35) {
                     // cross (or touch) the boundary of the convergence region by a dyadic step
                     let e = rng.below(ne);
                     let k = rng.int(-12, 12) as f64 / 64.0;
